@@ -1,12 +1,12 @@
 package props
 
 import (
-	"math"
 	"bytes"
 	"context"
 	"errors"
 	"fmt"
 	"io"
+	"math"
 	"os"
 	"strings"
 	"testing"
